@@ -30,6 +30,10 @@ except ImportError:  # pragma: no cover
 H = vlib.VERIF / "harness" / "C09"
 CORPUS = vlib.VERIF / "corpus" / "C09"
 
+# linalg.c is linked together with the library's base source a.c: a kernel rewritten with the library's own helpers (a_zero, a_copy,
+# ...) must still build here, so that the runs below can look for a failing input instead of stopping at a link error
+REPO_SRCS = ["linalg.c", "a.c"]
+
 OPS1 = ["T1", "eye1", "tri1", "diag", "diag1", "triL", "triL1", "triU", "triU1"]     # (n)
 OPS2 = ["T2", "eye2", "tri2", "diag2", "triL2", "triU2"]                               # (m, n)
 OPS3 = ["mulmm", "mulTm", "mulmT", "mulTT"]                                            # three dimensions
@@ -456,11 +460,77 @@ class FCase(Case):
         return " ".join(parts)
 
 
+MOVE_OPS = ["T1", "T2", "triL", "triL1", "triL2", "triU", "triU1", "triU2", "diag", "diag1", "diag2"]
+
+
+def signed_zero_cases():
+    """Directed cases of the bit-exact float run: matrices that hold nothing but zeros, +0.0 and -0.0 in mirrored positions
+    (A[r][c] and A[c][r] always differ in sign, the diagonal alternates), for every kernel that copies or moves values.  `==`
+    cannot tell the two zeros apart, the bit patterns can: a kernel that skips a move because the two cells "are equal", or
+    writes a literal 0 for a copied -0.0, is wrong only here.  The stale contents of the result array are the expected
+    contents with every sign flipped, so a store that is skipped shows as well."""
+    cases = []
+    for flip in (False, True):
+        def z(r, c, flip=flip):
+            neg = (c > r) if r != c else bool(r % 2)
+            return -0.0 if neg != flip else 0.0
+        for op in MOVE_OPS:
+            shapes = [(n, 0, 0) for n in (2, 3, 4)] if op in OPS1 else [(m, n, 0) for m, n in ((2, 2), (2, 3), (3, 2), (3, 3), (1, 4), (4, 1))]
+            for d in shapes:
+                nx, ny, no = sizes(op, d)
+                rows, cols = (d[0], d[0]) if op in OPS1 else (d[0], d[1])
+                M = [z(r, c) for r in range(rows) for c in range(cols)]
+                if op == "T1":
+                    X, O = [], M
+                else:
+                    X = [z(i, i) for i in range(nx)] if op == "diag" else M
+                    e = expected(op, d, X, [], [0.0] * no)
+                    O = [(-float(v) if v == 0 else -0.0) for v in e]
+                cases.append(FCase(op, d, X, [], O, "signed-zeros"))
+    return cases
+
+
+def float_oracle(case, c_line):
+    """The property on a line of the float run, for the kernels whose result cells are copies of input cells or the constants
+    0 and 1 (everything but the four products): `expected` applies to any contents, and "exact" means the same bit pattern
+    (all NaNs identified, the two zeros distinguished).  None if it holds or does not apply."""
+    if case.op in OPS3:
+        return None
+    t = c_line.split()
+    if len(t) < 5 or t[4] != "ok":
+        return None
+    exp = expected(case.op, case.d, case.X, case.Y, case.O)
+    got = t[5:]
+    if len(got) != len(exp):
+        return "result has %d cells, expected %d" % (len(got), len(exp))
+    ncol = max(1, {"T2": case.d[0], "diag1": 1, "diag2": 1}.get(case.op, case.d[0] if case.op in OPS1 else case.d[1]))
+    for i, (g, e) in enumerate(zip(got, exp)):
+        e = float(e)
+        gv = hex2f(g)
+        if (gv != gv and e != e) or g == f2hex(e):
+            continue
+        return ("result cell %d (row %d, column %d) is %r (bits %s), the specified value is %r (bits %s): not the same bit pattern"
+                % (i, i // ncol, i % ncol, gv, g[1:], e, f2hex(e)[1:]))
+    return None
+
+
+def parse_fcase(line):
+    t = line.split()
+    op, d = t[0], tuple(int(v) for v in t[1:4])
+    pos, arrs = 4, []
+    for _ in range(3):
+        n = int(t[pos])
+        arrs.append([hex2f(v) for v in t[pos + 1:pos + 1 + n]])
+        pos += 1 + n
+    return FCase(op, d, arrs[0], arrs[1], arrs[2], "replay")
+
+
 def float_tie(ctx):
     rng = random.Random(ctx.subseed("C09/float"))
     n = 400 if ctx.quick else 3000
     hi = 5 if ctx.quick else 8
-    cases = []
+    cases = signed_zero_cases()
+    ctx.cov["float_signed_zero_cases"] = len(cases)
     for i in range(n):
         op = ALL_OPS[i % len(ALL_OPS)] if i < 3 * len(ALL_OPS) else rng.choice(ALL_OPS)
         d = tuple(rng.randint(0 if rng.random() < 0.1 else 1, hi) for _ in range(3))
@@ -471,7 +541,7 @@ def float_tie(ctx):
         nx, ny, no = sizes(op, d)
         cases.append(FCase(op, d, [float_value(rng) for _ in range(nx)], [float_value(rng) for _ in range(ny)],
                            [float_value(rng) for _ in range(no)], "float"))
-    cbin = ctx.cc("drv_num", [H / "drv.c"], repo_srcs=["linalg.c"], mode="num")
+    cbin = ctx.cc("drv_num", [H / "drv.c"], repo_srcs=REPO_SRCS, mode="num")
     lines = run_c(cbin, cases, args=("hex",))
     # the C results become the expected values of a Coq file; the model is evaluated by vm_compute and
     # compared bit for bit inside Coq (all NaNs identified, signed zeros distinguished)
@@ -670,7 +740,7 @@ def woracle(case, c_line):
 
 
 def wide_tie(ctx, mbin_files):
-    cbin = ctx.cc("wdrv", [H / "wdrv.c"], repo_srcs=["linalg.c"], mode="asan")
+    cbin = ctx.cc("wdrv", [H / "wdrv.c"], repo_srcs=REPO_SRCS, mode="asan")
     mbin = ctx.ocaml_build("wmdrv", mbin_files + [H / "wmdrv.ml"])
     cases = gen_wide_cases(ctx)
     c_lines = run_c(cbin, cases, max_restarts=10, timeout=600)
@@ -838,7 +908,7 @@ def width_tie(ctx):
 
 # ----------------------------------------------------------------------------------------------
 def build(ctx):
-    cbin = ctx.cc("drv", [H / "drv.c"], repo_srcs=["linalg.c"], mode="asan")
+    cbin = ctx.cc("drv", [H / "drv.c"], repo_srcs=REPO_SRCS, mode="asan")
     ml = ctx.extract("C09/Extract.v", ["C09/extracted/linalg_model.ml", "C09/extracted/linalg_model.mli"])
     mbin = ctx.ocaml_build("mdrv", ml[::-1] + [H / "mdrv.ml"])
     ctx.__dict__["_c09_ml"] = ml[::-1]
@@ -994,8 +1064,34 @@ def run(ctx):
         fcases, usable, bad, flines, flagged = float_tie(ctx)
         # a float disagreement / a guard hit in the float run is a broken tie; the failing input is looked for
         # with the exact integer oracle on the same routine and shape (canonical integer contents), then shrunk
+        # the property evaluated bit for bit on every line of the float run (copy / move kernels): a failure is reported with the
+        # float case itself as the failing input
+        ffail = [(i, float_oracle(c, flines[i])) for i, c in enumerate(fcases) if i < len(flines)]
+        ffail = [(i, why) for i, why in ffail if why]
+        ctx.cov["float_bitwise_oracle"] = {"lines_evaluated": sum(1 for c in fcases if c.op not in OPS3), "failing": len(ffail)}
+        if ffail and not bad and not flagged:
+            ctx.tie_broken("float run: the C output violates the bitwise specification although it agrees with the PrimFloat model (case %d, %s)"
+                           % (ffail[0][0], fcases[ffail[0][0]].key()))
+        done = ctx.__dict__.setdefault("_c09_reported", set())
+        for i, why in sorted(ffail, key=lambda f: sum(sizes(fcases[f[0]].op, fcases[f[0]].d))):
+            c = fcases[i]
+            if c.op in done:
+                continue
+            done.add(c.op)
+            dims = ",".join(str(v) for v in c.dims_used())
+            ctx.report(key="a_real_%s/%s" % (c.op, dims.replace(",", "x")),
+                       what="a_real_%s(%s) on doubles (%s): %s" % (c.op, dims, c.tag, why),
+                       replay={"float_bits": True, "op": c.op, "dims": list(c.d), "X": [repr(v) for v in c.X], "O_initial": [repr(v) for v in c.O],
+                               "case_line": c.line(), "expected_result": [repr(float(v)) for v in expected(c.op, c.d, c.X, c.Y, c.O)],
+                               "observed_line": flines[i], "failure": why, "found_in": "bit-exact float run (%s)" % c.tag,
+                               "how_to_replay": "python3 tools/vcheck.py C09 --replay <this file>   (or: echo '<case_line>' | build/C09/drv_num hex, "
+                                                "built by checks/C09.py from $VERIF_REPO/src/linalg.c with -O2 -ffp-contract=off; values are "
+                                                "x<16 hex digits of the binary64 pattern>)"},
+                       found_input=True)
         for idx in flagged + [usable[b] for b in bad]:
             c = fcases[idx]
+            if c.op in done:
+                continue
             ic = make_case(None, c.op, c.d, "canon")
             ln = run_c(cbin, [ic])[0]
             why = oracle(ic, ln)
@@ -1003,6 +1099,7 @@ def run(ctx):
                 report_failure(ctx, cbin, ic, ln, why, origin="float run, case '%s'" % c.line()[:300])
     except vlib.CheckError as e:
         ctx.tie_broken("float tie could not run: " + str(e)[:600])
+    __import__("vglue").glue(ctx, "C09")   # glue around the modelled core: float / long double builds of every kernel (differential tests, tools/vglue.py); linalg.h has no C++ members (scanned on every run)
 
 
 def replay(ctx, path):
@@ -1010,12 +1107,22 @@ def replay(ctx, path):
     r = obj.get("replay", obj)
     if r.get("wide"):
         c = parse_wcase(r["case_line"])
-        cbin = ctx.cc("wdrv", [H / "wdrv.c"], repo_srcs=["linalg.c"], mode="asan")
+        cbin = ctx.cc("wdrv", [H / "wdrv.c"], repo_srcs=REPO_SRCS, mode="asan")
         ln = run_c(cbin, [c])[0]
         why = woracle(c, ln)
         print("case    :", c.line()[:400])
         print("C       :", ln)
         print("expected:", c.expected(), "(non-zero result cells)")
+        print("property:", "VIOLATED - " + why if why else "holds on this case")
+        return 1 if why else 0
+    if r.get("float_bits"):
+        c = parse_fcase(r["case_line"])
+        cbin = ctx.cc("drv_num", [H / "drv.c"], repo_srcs=REPO_SRCS, mode="num")
+        ln = run_c(cbin, [c], args=("hex",))[0]
+        why = float_oracle(c, ln)
+        print("case    :", c.line())
+        print("C       :", ln)
+        print("expected:", " ".join(f2hex(float(v)) for v in expected(c.op, c.d, c.X, c.Y, c.O)))
         print("property:", "VIOLATED - " + why if why else "holds on this case")
         return 1 if why else 0
     c = parse_case(r["case_line"])
@@ -1045,7 +1152,12 @@ META = {
             "PrimFloat vs the C bit for bit on arbitrary doubles; N-indexed model vs the C for diag1/diag2 on sparse matrices of 2^32..2^34 "
             "cells (n = 65535..65538, 2^31, UINT_MAX). The exact integer definition of every routine is evaluated on all C outputs. "
             "Static width tie: in clang's typed syntax tree of src/linalg.c every integer product inside a_real_* is computed in 64 bit "
-            "and nothing is narrowed (these are the sites where the model uses its 64-bit sz_mul).",
+            "and nothing is narrowed (these are the sites where the model uses its 64-bit sz_mul). "
+            "Differential tests, not theorems: the bit-exact float run starts with directed matrices of signed zeros (+0.0 and -0.0 in mirrored "
+            "positions, stale result cells of the opposite sign) for every kernel that copies or moves values, and the exact definition is "
+            "evaluated bit for bit on every line of that run; the glue run (tools/vglue.py, harness/glue/cfg_C09.c) builds every kernel "
+            "for a_real = float, double and long double with ASan/UBSan and requires exactly the integers of the same reference definition "
+            "on all shapes 0..5 and the tile-edge shapes, each array an exactly-sized block between guard bytes.",
     "note": "Trusted: Coq kernel/vm_compute; extraction (ExtrOcamlBasic only) + OCaml/C drivers; gcc, ASan/UBSan, mmap, clang -ast-dump. The cursor-level "
             "models coq/C09/LinalgDefs.v and LinalgWide.v are hand-written and tied to the C by correspondence on the generated shapes only. "
             "a_uint is modelled as 32 bit and a_size as 64 bit with explicit wrap at every integer offset computation (theorems hold for "
@@ -1054,7 +1166,9 @@ META = {
             "touched memory, so a narrowing of their a_size casts is detected only by the static width tie "
             "(clang syntax tree; reported without a runnable failing input), not by running. "
             "Memory safety of the C is observed (guards, ASan), proved only of the model. A pointer more than one past the end is formed (never "
-            "dereferenced) by `y += n` in a_real_mulTT; the model treats it as a plain offset. Real-number axioms only under the R instances.",
+            "dereferenced) by `y += n` in a_real_mulTT; the model treats it as a plain offset. Real-number axioms only under the R instances. "
+            "The float and long double builds are not modelled in Rocq: they are covered by the glue run only (integer-valued data, exact in "
+            "binary32), which is a differential test on generated shapes.",
     "technique": "Rocq proof (loop invariants over cursor arithmetic with explicit 32/64-bit wrap, induction on dimensions) + "
                  "linalg.c re-translated on every run for every shape with dimensions 0..3 (loops unrolled, arrays exactly sized) and proved equal "
                  "to the model for all contents (388 tie theorems) + extracted-model (Z, N-indexed sparse) and PrimFloat vs C correspondence",
